@@ -14,6 +14,7 @@ import OFV.Proofs.C02Clifford
 import OFV.Proofs.C03Main
 import OFV.Proofs.C03Exact
 import OFV.Proofs.C02Real
+import OFV.Proofs.C02PauliHerm
 
 namespace OFV.C02
 open OFV OFV.Model OFV.Model.C02 OFV.Proofs.C02
@@ -366,5 +367,36 @@ theorem is_hermitian_fermion_complete (D : Nat) (hD : 0 < D) (tol : Rat) (ht : 0
   rw [Proofs.C03.normal_ordered_exact_regime_aux D hD tol (le_of_lt ht) h1 a la,
     Proofs.C03.normal_ordered_exact_regime_aux D hD tol (le_of_lt ht) h1 (hcFermion a) lh]
   exact (is_hermitian_fermion_iff a wa hv).1 hh t
+
+/-! ## `is_hermitian(QubitOperator)` — Pauli strings are Hermitian and linearly independent -/
+
+/-- **distinct canonical Pauli strings are linearly independent** on `n` qubits (trace
+orthogonality: for `P ≠ Q` the summands of `tr(P†Q)` vanish or cancel under `s ↦ s ⊕ 2^j`). -/
+theorem pauli_strings_independent (D : Op) (n : Nat) (hwf : Dict.WF D) (hc : ∀ e ∈ D, PauliCanonical e.1)
+    (hb : ∀ e ∈ D, ∀ f ∈ e.1, f.1 < n) (hz : ∀ s t, s < 2 ^ n → Spec.melQ D t s = 0) : ∀ e ∈ D, e.2 = 0 :=
+  pauli_independent D n hwf hc hb hz
+
+/-- A QubitOperator with canonical strings (what the class stores) is Hermitian in the Spec
+(`⟨t|A|s⟩ = conj ⟨s|A|t⟩` for all basis states) IF AND ONLY IF all its coefficients are real. -/
+theorem is_hermitian_qubit_iff_real (a : Op) (n : Nat) (wa : Dict.WF a) (hc : ∀ e ∈ a, PauliCanonical e.1)
+    (hb : ∀ e ∈ a, ∀ f ∈ e.1, f.1 < n) :
+    (∀ s t, Spec.melQ a t s = (Spec.melQ a s t).conj) ↔ ∀ e ∈ a, e.2.conj = e.2 :=
+  hermitian_qubit_iff_real a n wa hc hb
+
+/-- the coded `is_hermitian(QubitOperator)` (`op == hermitian_conjugated(op)`) is true iff every
+coefficient is within the `==` tolerance of its conjugate — "real up to the tolerance". -/
+theorem is_hermitian_qubit_termwise (tol : Rat) (a : Op) (wa : Dict.WF a) :
+    isHermitianQubit tol a = true ↔ ∀ e ∈ a, closeRel tol e.2 e.2.conj = true :=
+  isHermitianQubit_iff_termwise tol a wa
+
+/-- hence: a Hermitian QubitOperator is always recognised (positive tolerance). -/
+theorem is_hermitian_qubit_complete (tol : Rat) (ht : 0 < tol) (a : Op) (n : Nat) (wa : Dict.WF a)
+    (hc : ∀ e ∈ a, PauliCanonical e.1) (hb : ∀ e ∈ a, ∀ f ∈ e.1, f.1 < n)
+    (hh : ∀ s t, Spec.melQ a t s = (Spec.melQ a s t).conj) : isHermitianQubit tol a = true := by
+  rw [is_hermitian_qubit_termwise tol a wa]
+  intro e he
+  rw [(is_hermitian_qubit_iff_real a n wa hc hb).1 hh e he, closeRel_eq]
+  have := coefClose_refl tol ht e.2
+  simpa [Spec.C02.coefClose] using this
 
 end OFV.C02
